@@ -369,6 +369,17 @@ theorem convert_int_in_range (std : Std) (t : NumTy) (ht : t.isFloat = false) (v
       simp [wrapInt, NumTy.signed, NumTy.bits] <;> omega
   cases t <;> simp [NumTy.isFloat] at ht <;> simp [convert, convNum, hw]
 
+/-- numeric strings: the decimal text of an integer (as `i64::to_string` writes it) converts back to that
+    integer for every integer target type that can hold it -/
+theorem convert_numeric_string (std : Std) (t : NumTy) (ht : t.isFloat = false) (v : Int) (pos : Pos)
+    (hlo : t.lo ≤ v) (hhi : v ≤ t.hi) :
+    convert std (.string (intToStr v)) pos (.num t) = .ok (.int t v) := by
+  have hs : v < 0 → t.signed = true := by
+    intro hv
+    cases t <;> simp [NumTy.isFloat] at ht <;> simp [NumTy.lo, NumTy.signed] at hlo ⊢ <;> omega
+  have hp := parseInt_intToStr t.signed t.lo t.hi v hlo hhi hs
+  cases t <;> simp [NumTy.isFloat] at ht <;> simp [convert, convNum, hp]
+
 /-- a cast always lands in the target type's range (floats saturate, integers wrap) -/
 theorem convert_num_in_range (t : NumTy) (ht : t.isFloat = false) (b : Nat) (v : Int) :
     (t.lo ≤ f64ToInt t b ∧ f64ToInt t b ≤ t.hi) ∧ (t.lo ≤ wrapInt t v ∧ wrapInt t v ≤ t.hi) := by
